@@ -114,7 +114,10 @@ class Symbol(Node):  # pylint: disable=too-few-public-methods
     """
 
     def get_str_repr(self, sons_repr):
-        return str(self.value)
+        value = str(self.value)
+        if value in SPECIAL_SYMBOLS:
+            return "\\" + value
+        return value
 
     def get_cfg_rules(self, current_symbol, sons):
         """ Gets the rules for a context-free grammar to represent the \
